@@ -7,14 +7,20 @@
 //!     byte received from sozu; written AFTER draining the hook channel, together with the set of
 //!     sockets the harness still sees open, checked with poll(POLLRDHUP)), `client_close`;
 //!   * `quiesce` after each wave: every gauge of QueryMetrics, compared by the spec with `baseline`.
+//!   * `backend_saw`: the harness owns the backends; every request / first TCP payload carries the client's
+//!     port and the number of table wipes acknowledged so far (`X-Verif: port.epoch`, `#port.epoch#`), and the
+//!     backend that receives it says so. A connection reaches a backend only through the per-(cluster, ip)
+//!     gate, so Trace_Sessions demands the matching `sm_track` earlier in the trace - whatever the limit was.
+//!   * `set_override`: AddCluster for an existing cluster with another max_connections_per_ip; written where
+//!     the worker handled the command (its `worker_cmd` hook event, matched by request id).
 //! The driver never asserts what a response should be - it only records. The single trace is one
 //! causally merged stream: a harness action is logged before it is performed, a harness observation
 //! after every hook event that can have caused it (see design_notes/C16.md).
-use std::collections::{BTreeMap, BTreeSet};
+use std::collections::{BTreeMap, BTreeSet, HashMap};
 use std::io::{Read, Write};
 use std::net::{SocketAddr, TcpListener, TcpStream};
 use std::os::fd::{AsRawFd, FromRawFd};
-use std::sync::mpsc::{Receiver, channel};
+use std::sync::mpsc::{Receiver, Sender, channel};
 use std::sync::{Arc, Mutex};
 use std::time::{Duration, Instant};
 
@@ -23,7 +29,7 @@ use rand::{RngExt, SeedableRng};
 use serde_json::{Map, Value, json};
 use sozu_command_lib::config::ListenerBuilder;
 use sozu_command_lib::proto::command::{
-    ActivateListener, AddCertificate, CertificateAndKey, Cluster, ListenerType, QueryMetricsOptions, SoftStop,
+    ActivateListener, AddCertificate, CertificateAndKey, Cluster, ListenerType, QueryMetricsOptions, RemoveBackend, SoftStop,
     filtered_metrics, request::RequestType, response_content::ContentType,
 };
 use sozu_command_lib::scm_socket::Listeners;
@@ -49,11 +55,21 @@ const KNOWN_HOOKS: [&str; 18] = [
 // ---------------------------------------------------------------------------------------------
 // backends
 
-fn spawn_h1_backend(addr: SocketAddr) {
+/// what a backend reports: (cluster, client port, wipe epoch) read from the tag the client put into its request
+type Saw = (String, u16, u64);
+
+/// "<port>.<epoch>" -> (port, epoch)
+fn parse_tag(t: &str) -> Option<(u16, u64)> {
+    let (p, e) = t.trim().split_once('.')?;
+    Some((p.parse().ok()?, e.parse().ok()?))
+}
+
+fn spawn_h1_backend(addr: SocketAddr, cluster: &'static str, tx: Sender<Saw>) {
     let l = TcpListener::bind(addr).expect("bind backend");
     std::thread::spawn(move || {
         for s in l.incoming() {
             let Ok(mut s) = s else { continue };
+            let tx = tx.clone();
             std::thread::spawn(move || {
                 s.set_read_timeout(Some(Duration::from_secs(15))).ok();
                 let mut buf: Vec<u8> = Vec::new();
@@ -73,6 +89,12 @@ fn spawn_h1_backend(addr: SocketAddr) {
                     let head = String::from_utf8_lossy(&buf[..end]).to_string();
                     buf.drain(..end);
                     let path = head.split_whitespace().nth(1).unwrap_or("/").to_string();
+                    if let Some((p, e)) = head.lines().find_map(|l| {
+                        let (k, v) = l.split_once(':')?;
+                        if k.trim().eq_ignore_ascii_case("x-verif") { parse_tag(v) } else { None }
+                    }) {
+                        let _ = tx.send((cluster.to_string(), p, e));
+                    }
                     if path.ends_with("/close") {
                         return; // close without answering
                     } else if path.ends_with("/stall") {
@@ -117,18 +139,28 @@ fn spawn_h1_backend(addr: SocketAddr) {
     });
 }
 
-fn spawn_tcp_backend(addr: SocketAddr) {
+fn spawn_tcp_backend(addr: SocketAddr, cluster: &'static str, tx: Sender<Saw>) {
     let l = TcpListener::bind(addr).expect("bind tcp backend");
     std::thread::spawn(move || {
         for s in l.incoming() {
             let Ok(mut s) = s else { continue };
+            let tx = tx.clone();
             std::thread::spawn(move || {
                 s.set_read_timeout(Some(Duration::from_secs(15))).ok();
                 let mut tmp = [0u8; 1024];
+                let mut first = true;
                 loop {
                     match s.read(&mut tmp) {
                         Ok(0) | Err(_) => return,
                         Ok(n) => {
+                            if first {
+                                first = false;
+                                // "#<port>.<epoch>#" in front of the client's first payload
+                                let txt = String::from_utf8_lossy(&tmp[..n]).to_string();
+                                if let Some(tag) = txt.strip_prefix('#').and_then(|r| r.split_once('#')).and_then(|(t, _)| parse_tag(t)) {
+                                    let _ = tx.send((cluster.to_string(), tag.0, tag.1));
+                                }
+                            }
                             if tmp[..n].contains(&b'C') {
                                 return; // backend closes
                             }
@@ -211,6 +243,19 @@ enum Kind {
     Tls,
     Tcp,
     TcpDead,
+    /// TCP listener whose cluster has no backend at all: the session passes the gate, then backend selection fails
+    TcpNone,
+    /// TCP listener whose only backend is removed / put back at run time
+    TcpGone,
+}
+
+/// how a connection of the `enable` / `leak` waves talks
+#[derive(Clone, Copy, PartialEq, Debug)]
+enum Flavor {
+    H1,
+    TlsH1,
+    TlsH2,
+    Tcp,
 }
 
 struct Cli {
@@ -219,12 +264,29 @@ struct Cli {
     tls: Option<H2Conn<TlsStream>>,
     served: bool,
     note: String,
+    kind: Kind,
+    /// TCP: the tag was sent with the first payload
+    tagged: bool,
+    /// H2: preface sent, next stream id
+    h2_ready: bool,
+    h2_sid: u32,
 }
 
 struct Driver {
     rng: StdRng,
     w: Worker,
     rx: Receiver<sozu_lib::verif::Event>,
+    /// what the backends saw
+    brx: Receiver<Saw>,
+    /// kind of the last hook event written to the trace
+    last_hook: &'static str,
+    /// table wipes (SetMaxConnectionsPerIp(0)) acknowledged so far
+    epoch: u64,
+    /// AddCluster requests in flight that change a cluster's max_connections_per_ip: request id -> (cluster, value)
+    pending_ovr: HashMap<String, (String, i64)>,
+    tcp_none: SocketAddr,
+    tcp_gone: SocketAddr,
+    gone_backend: SocketAddr,
     trace: Vec<Value>,
     last_idle: Option<Value>,
     /// latest loop_idle seen (kept or not) and whether a non-idle worker event came after it
@@ -258,12 +320,49 @@ impl Driver {
 
     /// move every hook event emitted so far into the trace
     fn drain(&mut self) {
-        while let Ok(e) = self.rx.try_recv() {
+        // what the backends saw so far is taken FIRST: every hook event that led to it (the gate, the track) was
+        // emitted before the backend could see anything, so it is in the hook channel by now and is written first
+        let saws: Vec<Saw> = self.brx.try_iter().collect();
+        self.drain_hooks();
+        for (c, p, e) in saws {
+            self.trace.push(json!({"ev": "backend_saw", "cluster": c, "port": p, "epoch": e}));
+        }
+    }
+
+    fn drain_hooks(&mut self) {
+        loop {
+            let e = match self.rx.try_recv() {
+                Ok(e) => e,
+                Err(_) => {
+                    // the end of a session ([sm_untrack_all] session_close sm_decr) and a wipe (sm_clear
+                    // sm_set_per_ip_limit) are several events of ONE step of the worker, consumed as one action by
+                    // the trace spec: never let a harness event fall in between
+                    if !matches!(self.last_hook, "sm_untrack_all" | "session_close" | "sm_clear") {
+                        break;
+                    }
+                    match self.rx.recv_timeout(Duration::from_millis(500)) {
+                        Ok(e) => e,
+                        Err(_) => break,
+                    }
+                }
+            };
+            if e.kind == "worker_cmd" {
+                // the worker has handled one command: an override change takes effect exactly here
+                let id = e.strs.iter().find(|(k, _)| *k == "id").map(|(_, v)| v.clone());
+                if let Some((c, v)) = id.and_then(|id| self.pending_ovr.remove(&id)) {
+                    self.hook_events += 1;
+                    self.latest_idle = None;
+                    self.last_idle = None;
+                    self.trace.push(json!({"ev": "set_override", "cluster": c, "value": v}));
+                }
+                continue;
+            }
             // hooks of other checks (worker_cmd, ...) are not part of this trace
             if !KNOWN_HOOKS.contains(&e.kind) {
                 continue;
             }
             self.hook_events += 1;
+            self.last_hook = e.kind;
             let mut m = Map::new();
             m.insert("ev".into(), json!(e.kind));
             for (k, v) in &e.nums {
@@ -308,6 +407,8 @@ impl Driver {
             Kind::Tls => self.https,
             Kind::Tcp => self.tcp,
             Kind::TcpDead => self.tcp_dead,
+            Kind::TcpNone => self.tcp_none,
+            Kind::TcpGone => self.tcp_gone,
         }
     }
 
@@ -323,7 +424,7 @@ impl Driver {
                     s.set_read_timeout(Some(T)).ok();
                     s.set_write_timeout(Some(T)).ok();
                     self.connected.insert(port);
-                    self.clients.push(Cli { port, sock: Some(s), tls: None, served: false, note: String::new() });
+                    self.clients.push(Cli { port, sock: Some(s), tls: None, served: false, note: String::new(), kind, tagged: false, h2_ready: false, h2_sid: 1 });
                     self.max_conn = self.max_conn.max(self.clients.iter().filter(|c| c.sock.is_some() || c.tls.is_some()).count());
                     return Some(self.clients.len() - 1);
                 }
@@ -395,9 +496,38 @@ impl Driver {
         }
     }
 
+    fn tag_of(&self, i: usize) -> String {
+        format!("{}.{}", self.clients[i].port, self.epoch)
+    }
+
+    /// the bytes with the connection's tag: a header in a complete GET request, a prefix of the first TCP payload
+    fn tagged(&mut self, i: usize, bytes: &[u8]) -> Vec<u8> {
+        let tag = self.tag_of(i);
+        match self.clients[i].kind {
+            Kind::H1 | Kind::Tls => {
+                if bytes.starts_with(b"GET ") && bytes.ends_with(b"\r\n\r\n") {
+                    let mut v = bytes[..bytes.len() - 2].to_vec();
+                    v.extend_from_slice(format!("X-Verif: {tag}\r\n\r\n").as_bytes());
+                    v
+                } else {
+                    bytes.to_vec()
+                }
+            }
+            _ => {
+                if self.clients[i].tagged {
+                    bytes.to_vec()
+                } else {
+                    self.clients[i].tagged = true;
+                    [format!("#{tag}#").as_bytes(), bytes].concat()
+                }
+            }
+        }
+    }
+
     fn send(&mut self, i: usize, bytes: &[u8]) -> bool {
+        let bytes = self.tagged(i, bytes);
         match self.clients[i].sock.as_mut() {
-            Some(s) => s.write_all(bytes).is_ok(),
+            Some(s) => s.write_all(&bytes).is_ok(),
             None => false,
         }
     }
@@ -699,11 +829,13 @@ impl Driver {
                         let ws = self.rng.random_bool(0.5);
                         let quit = self.rng.random_bool(0.5);
                         let mut st = None;
+                        let req_ws = self.tagged(i, b"GET /c1/ws HTTP/1.1\r\nHost: localhost\r\nConnection: Upgrade\r\nUpgrade: websocket\r\n\r\n");
+                        let req_ok = self.tagged(i, b"GET /c1/ok HTTP/1.1\r\nHost: localhost\r\n\r\n");
                         if let Some(t) = self.clients[i].tls.as_mut() {
                             if ws {
-                                t.send_raw(b"GET /c1/ws HTTP/1.1\r\nHost: localhost\r\nConnection: Upgrade\r\nUpgrade: websocket\r\n\r\n");
+                                t.send_raw(&req_ws);
                             } else {
-                                t.send_raw(b"GET /c1/ok HTTP/1.1\r\nHost: localhost\r\n\r\n");
+                                t.send_raw(&req_ok);
                             }
                             let mut tmp = [0u8; 2048];
                             t.s.sock.set_read_timeout(Some(T)).ok();
@@ -730,12 +862,13 @@ impl Driver {
                     let streams = self.rng.random_range(1..4u32);
                     let stall = k == 7;
                     let mut got = Vec::new();
+                    let tag = self.tag_of(i);
                     if let Some(t) = self.clients[i].tls.as_mut() {
                         t.client_preface(&[]);
                         for s in 0..streams {
                             let sid = 1 + 2 * s;
                             let path = if stall && s == 0 { "/c1/stall" } else if s % 2 == 0 { "/c1/ok" } else { "/c2/ok" };
-                            let block = request_block(&mut t.hp, "GET", "https", "localhost", path, &[]);
+                            let block = request_block(&mut t.hp, "GET", "https", "localhost", path, &[("x-verif", &tag)]);
                             t.send(&Frame::headers(sid, block, true, true));
                         }
                         let want = if stall { streams - 1 } else { streams };
@@ -827,7 +960,290 @@ impl Driver {
         let r = self.w.request(RequestType::SetMaxConnectionsPerIp(n), T);
         if !ok(&r) {
             self.failures.push(json!({"class": "tool", "what": "SetMaxConnectionsPerIp not acknowledged"}));
+        } else if n == 0 {
+            // the wipe was acknowledged: whatever is sent from now on passes the gate after it
+            self.epoch += 1;
         }
+    }
+
+    /// AddCluster again for an existing cluster, with another max_connections_per_ip (-1 = inherit the global limit)
+    fn set_override(&mut self, cluster: &str, value: i64) {
+        let cl = Cluster { cluster_id: cluster.into(), max_connections_per_ip: if value < 0 { None } else { Some(value as u64) }, ..Worker::default_cluster(cluster) };
+        let id = self.w.send_type(RequestType::AddCluster(cl));
+        self.pending_ovr.insert(id.clone(), (cluster.to_string(), value));
+        let answered = self.w.wait_for(&id, T).into_iter().any(|r| ok(&Some(r)));
+        self.drain();
+        if !answered || self.pending_ovr.contains_key(&id) {
+            self.failures.push(json!({"class": "tool", "what": "AddCluster (override change) not acknowledged"}));
+        }
+    }
+
+    // ---- connections that talk one of four ways (waves enable / leak) --------------------------------
+
+    fn open_flavor(&mut self, f: Flavor, ip: u8, tcp_kind: Kind) -> Option<usize> {
+        let kind = match f {
+            Flavor::H1 => Kind::H1,
+            Flavor::TlsH1 | Flavor::TlsH2 => Kind::Tls,
+            Flavor::Tcp => tcp_kind,
+        };
+        let i = self.open(kind, ip)?;
+        match f {
+            Flavor::TlsH1 => self.tls_handshake(i, &[b"http/1.1"]).ok().map(|_| i),
+            Flavor::TlsH2 => self.tls_handshake(i, &[b"h2"]).ok().map(|_| i),
+            _ => Some(i),
+        }
+    }
+
+    /// one request (TCP: one payload) on connection i towards `cluster`; what came back is only recorded
+    fn ask(&mut self, i: usize, f: Flavor, cluster: &str, what: &str) {
+        let st: Option<u16> = match f {
+            Flavor::H1 => {
+                self.send(i, format!("GET /{cluster}/ok HTTP/1.1\r\nHost: localhost\r\n\r\n").as_bytes());
+                self.read_h1(i, T)
+            }
+            Flavor::TlsH1 => {
+                let req = self.tagged(i, format!("GET /{cluster}/ok HTTP/1.1\r\nHost: localhost\r\n\r\n").as_bytes());
+                let mut st = None;
+                if let Some(t) = self.clients[i].tls.as_mut() {
+                    t.send_raw(&req);
+                    let mut tmp = [0u8; 2048];
+                    t.s.sock.set_read_timeout(Some(T)).ok();
+                    st = t.s.read(&mut tmp).ok().filter(|n| *n > 12).and_then(|_| String::from_utf8_lossy(&tmp[9..12]).parse::<u16>().ok());
+                }
+                st
+            }
+            Flavor::TlsH2 => {
+                let tag = self.tag_of(i);
+                let path = format!("/{cluster}/ok");
+                let (ready, sid) = (self.clients[i].h2_ready, self.clients[i].h2_sid);
+                self.clients[i].h2_ready = true;
+                self.clients[i].h2_sid = sid + 2;
+                let mut st = None;
+                if let Some(t) = self.clients[i].tls.as_mut() {
+                    if !ready {
+                        t.client_preface(&[]);
+                    }
+                    let block = request_block(&mut t.hp, "GET", "https", "localhost", &path, &[("x-verif", &tag)]);
+                    t.send(&Frame::headers(sid, block, true, true));
+                    let frames = t.read_until(T, |f| (f.sid == sid && (f.end_stream() || f.ty == vh::h2::RST_STREAM)) || f.ty == vh::h2::GOAWAY);
+                    for f in &frames {
+                        if f.ty == vh::h2::SETTINGS && f.flags & vh::h2::FLAG_ACK == 0 {
+                            t.send(&Frame::settings_ack());
+                        }
+                        if f.ty == vh::h2::HEADERS {
+                            if let Ok(h) = t.hp.decode(&f.payload) {
+                                if f.sid == sid {
+                                    st = h.iter().find(|(k, _)| k == b":status").and_then(|(_, v)| String::from_utf8_lossy(v).parse().ok());
+                                }
+                            }
+                        }
+                    }
+                }
+                st
+            }
+            Flavor::Tcp => {
+                self.send(i, b"echo");
+                if self.await_byte(i, Duration::from_millis(1500)) { Some(200) } else { Some(0) }
+            }
+        };
+        let k = format!("{what}-{f:?}");
+        self.status(&k, st);
+    }
+
+    fn pick_flavor(&mut self, tcp_ok: bool) -> Flavor {
+        match self.rng.random_range(0..if tcp_ok { 5 } else { 4 }) {
+            0 | 1 => Flavor::H1,
+            2 => Flavor::TlsH1,
+            3 => Flavor::TlsH2,
+            _ => Flavor::Tcp,
+        }
+    }
+
+    /// A limit switched on at run time must find the connections that are already being served.
+    /// The resolved limit is 0 (since boot, or since the last wipe) while the first connections are opened and
+    /// served; they stay open; the limit is switched on - the global one (SetMaxConnectionsPerIp) or the
+    /// cluster's own (AddCluster again); the same address comes again; the old ones ask again; one leaves and
+    /// another comes; optionally off (a wipe for the global limit, none for a cluster's) and on again.
+    /// Nothing is asserted here: every gate decision is compared with the spec's tables by Trace_Sessions.
+    fn wave_enable(&mut self) {
+        let via_override = self.rng.random_bool(0.4);
+        let hc = if via_override { "c3" } else { "c1" };
+        let tcp_too = self.rng.random_bool(0.6);
+        let mut n = self.rng.random_range(1..3i64);
+        let mut olds: Vec<(usize, Flavor)> = Vec::new();
+        let cluster_of = |f: Flavor| if f == Flavor::Tcp { "t1" } else { hc };
+        // A: served while the resolved limit is 0
+        let k = self.rng.random_range(2..5usize);
+        let mut visited_other = false;
+        for j in 0..k {
+            // at least one TCP connection when TCP takes part, at least one that is not
+            let f = if j == 0 && tcp_too { Flavor::Tcp } else if j == 1 { self.pick_flavor(false) } else { self.pick_flavor(tcp_too) };
+            let ip = if j == 3 { 2 } else { 1 };
+            if let Some(i) = self.open_flavor(f, ip, Kind::Tcp) {
+                self.ask(i, f, cluster_of(f), "enable-old");
+                // ... and by a second cluster on the same connection: the first one always visits the other cluster
+                // whose limit can be switched (c1: the global limit, c3: its own, "unlimited" for now)
+                if f != Flavor::Tcp && (!visited_other || self.rng.random_bool(0.3)) {
+                    let other = if !visited_other { if via_override { "c1" } else { "c3" } } else { "c2" };
+                    visited_other = true;
+                    self.ask(i, f, other, "enable-old2");
+                }
+                olds.push((i, f));
+            }
+        }
+        for round in 0..2 {
+            // B: the limit is switched on
+            if via_override {
+                self.set_override(hc, n);
+                if tcp_too {
+                    self.set_override("t1", n);
+                }
+            } else {
+                self.set_limit(n as u64);
+            }
+            // C: the same address comes again
+            let m = self.rng.random_range(2..4usize);
+            let mut news: Vec<(usize, Flavor)> = Vec::new();
+            for _ in 0..m {
+                let f = self.pick_flavor(tcp_too);
+                if let Some(i) = self.open_flavor(f, 1, Kind::Tcp) {
+                    self.ask(i, f, cluster_of(f), "enable-new");
+                    news.push((i, f));
+                }
+            }
+            // D: the old ones ask again (they hold their slot)
+            for (i, f) in olds.clone() {
+                if f != Flavor::Tcp && self.fd_of(i).is_some() && self.rng.random_bool(0.7) {
+                    self.ask(i, f, hc, "enable-again");
+                }
+            }
+            // E: one leaves, another one comes
+            if let Some((i, _)) = olds.first().copied() {
+                self.close(i);
+                olds.remove(0);
+                std::thread::sleep(Duration::from_millis(60));
+                let f = self.pick_flavor(tcp_too);
+                if let Some(j) = self.open_flavor(f, 1, Kind::Tcp) {
+                    self.ask(j, f, cluster_of(f), "enable-after-close");
+                    news.push((j, f));
+                }
+            }
+            if round == 1 || self.rng.random_bool(0.5) {
+                break;
+            }
+            // F: off (global: the tables are wiped; cluster-level: nothing is), more connections, on again
+            if via_override {
+                self.set_override(hc, 0);
+                if tcp_too {
+                    self.set_override("t1", 0);
+                }
+            } else {
+                self.set_limit(0);
+            }
+            for _ in 0..self.rng.random_range(1..3usize) {
+                let f = self.pick_flavor(tcp_too);
+                if let Some(i) = self.open_flavor(f, 1, Kind::Tcp) {
+                    self.ask(i, f, cluster_of(f), "enable-off");
+                    olds.push((i, f));
+                }
+            }
+            // some of those that were open across the switch ask again while it is off
+            for (i, f) in news {
+                if f != Flavor::Tcp && self.fd_of(i).is_some() && self.rng.random_bool(0.5) {
+                    self.ask(i, f, hc, "enable-off-again");
+                }
+            }
+            n = self.rng.random_range(1..3i64);
+        }
+        self.close_all();
+        self.settle();
+        self.set_limit(0);
+        if via_override {
+            self.set_override(hc, 0);
+            if tcp_too {
+                self.set_override("t1", -1);
+            }
+        }
+    }
+
+    /// Sessions that die AFTER the gate gave them a slot and before (or without) a backend connection: a TCP
+    /// cluster without any backend, one whose backend was removed at run time, a backend that refuses, an HTTP
+    /// cluster without backend (503, the connection goes on), a dead HTTP backend. Each is followed by traffic
+    /// on another listener / cluster from the same address, which takes the slab slot just released, and by the
+    /// same address coming back to the cluster of the failed session.
+    fn wave_leak(&mut self) {
+        let l = self.rng.random_range(0..3u64);
+        if l > 0 {
+            self.set_limit(l);
+        }
+        let gone = self.rng.random_bool(0.5);
+        if gone {
+            let r = self.w.request(RequestType::RemoveBackend(RemoveBackend { cluster_id: "tgone".into(), backend_id: "btg".into(), address: self.gone_backend.into() }), T);
+            if !ok(&r) {
+                self.failures.push(json!({"class": "tool", "what": "RemoveBackend not acknowledged"}));
+            }
+        }
+        for _ in 0..self.rng.random_range(2..5usize) {
+            let which = self.rng.random_range(0..5);
+            let victim_kind = match which {
+                0 => Some(Kind::TcpNone),
+                1 => Some(Kind::TcpGone),
+                2 => Some(Kind::TcpDead),
+                _ => None,
+            };
+            for again in 0..2 {
+                match victim_kind {
+                    Some(k) => {
+                        if let Some(i) = self.open(k, 1) {
+                            self.send(i, b"echo");
+                            if k == Kind::TcpGone && !gone {
+                                let _ = self.await_byte(i, Duration::from_millis(800));
+                                if self.rng.random_bool(0.5) {
+                                    self.close(i);
+                                }
+                            } else {
+                                self.clients[i].note = "await-timeout".into(); // sozu must close it
+                                if again == 0 {
+                                    let _ = self.await_closed(i, Duration::from_millis(if k == Kind::TcpDead { 1500 } else { 500 }));
+                                }
+                            }
+                        }
+                    }
+                    None => {
+                        if let Some(i) = self.open(Kind::H1, 1) {
+                            let path = if which == 3 { "/none/x" } else { "/dead/x" };
+                            self.send(i, format!("GET {path} HTTP/1.1\r\nHost: localhost\r\n\r\n").as_bytes());
+                            let st = self.read_h1(i, RECLAIM_DEADLINE);
+                            self.status("leak-503", st);
+                            if self.rng.random_bool(0.5) {
+                                self.close(i);
+                            }
+                        }
+                    }
+                }
+                if again == 0 {
+                    // traffic elsewhere, same address: the next session takes the slab slot that was just released
+                    let f = self.pick_flavor(true);
+                    if let Some(j) = self.open_flavor(f, 1, Kind::Tcp) {
+                        let c = if f == Flavor::Tcp { "t1" } else if self.rng.random_bool(0.5) { "c1" } else { "c2" };
+                        self.ask(j, f, c, "leak-other");
+                        if self.rng.random_bool(0.3) {
+                            self.close(j);
+                        }
+                    }
+                }
+            }
+        }
+        self.await_reclaimed("leak");
+        self.close_all();
+        self.settle();
+        if gone {
+            let r = self.w.request(RequestType::AddBackend(Worker::backend("tgone", "btg", self.gone_backend)), T);
+            if !ok(&r) {
+                self.failures.push(json!({"class": "tool", "what": "AddBackend not acknowledged"}));
+            }
+        }
+        self.set_limit(0);
     }
 
     fn wave_perip(&mut self) {
@@ -886,6 +1302,19 @@ impl Driver {
         }
         self.close_all();
         self.set_limit(0);
+    }
+
+    /// after close_all: give the worker up to 3 s to end every session, so that a wipe that follows cannot hide
+    /// what the sessions did (or failed to do) with their slots when they closed
+    fn settle(&mut self) {
+        let t0 = Instant::now();
+        while t0.elapsed() < Duration::from_secs(3) {
+            self.drain();
+            if self.is_quiet() || self.w.is_finished() {
+                break;
+            }
+            std::thread::sleep(Duration::from_millis(20));
+        }
     }
 
     // ---- quiescence + metrics -------------------------------------------------------------------
@@ -1028,10 +1457,15 @@ fn main() {
     let mut w = Worker::start("c16", config, &Listeners::default(), ConfigState::new());
 
     let (http, https, tcp, tcp_dead) = (free_addr(), free_addr(), free_addr(), free_addr());
+    let (tcp_none, tcp_gone) = (free_addr(), free_addr());
     let (b1, b2, bdead, bt) = (free_addr(), free_addr(), free_addr(), free_addr());
-    spawn_h1_backend(b1);
-    spawn_h1_backend(b2);
-    spawn_tcp_backend(bt);
+    let (b3, btg) = (free_addr(), free_addr());
+    let (btx, brx) = channel::<Saw>();
+    spawn_h1_backend(b1, "c1", btx.clone());
+    spawn_h1_backend(b2, "c2", btx.clone());
+    spawn_h1_backend(b3, "c3", btx.clone());
+    spawn_tcp_backend(bt, "t1", btx.clone());
+    spawn_tcp_backend(btg, "tgone", btx.clone());
     let mut setup_ok = true;
     {
         let mut lb = ListenerBuilder::new_http(http.into());
@@ -1050,23 +1484,26 @@ fn main() {
             }),
             T,
         ));
-        for (addr, _) in [(tcp, "t1"), (tcp_dead, "tdead")] {
+        for (addr, _) in [(tcp, "t1"), (tcp_dead, "tdead"), (tcp_none, "tnone"), (tcp_gone, "tgone")] {
             let mut lb = ListenerBuilder::new_tcp(addr.into());
             lb.with_front_timeout(Some(FRONT_TIMEOUT)).with_back_timeout(Some(BACK_TIMEOUT)).with_connect_timeout(Some(CONNECT_TIMEOUT));
             setup_ok &= ok(&w.request(RequestType::AddTcpListener(lb.to_tcp(None).expect("tcp listener")), T));
             setup_ok &= ok(&w.request(RequestType::ActivateListener(ActivateListener { address: addr.into(), proxy: ListenerType::Tcp.into(), from_scm: false }), T));
         }
-        for (cid, ovr) in [("c1", None), ("c2", Some(2u64)), ("dead", None), ("t1", None), ("tdead", None)] {
+        // c3: its own limit, "unlimited" to begin with and changed at run time; none / tnone: no backend at all
+        for (cid, ovr) in [("c1", None), ("c2", Some(2u64)), ("c3", Some(0u64)), ("dead", None), ("none", None), ("t1", None), ("tdead", None), ("tnone", None), ("tgone", None)] {
             let cl = Cluster { cluster_id: cid.into(), max_connections_per_ip: ovr, ..Worker::default_cluster(cid) };
             setup_ok &= ok(&w.request(RequestType::AddCluster(cl), T));
         }
-        for (cid, path) in [("c1", "/c1/"), ("c2", "/c2/"), ("dead", "/dead/")] {
+        for (cid, path) in [("c1", "/c1/"), ("c2", "/c2/"), ("c3", "/c3/"), ("dead", "/dead/"), ("none", "/none/")] {
             setup_ok &= ok(&w.request(RequestType::AddHttpFrontend(Worker::http_frontend(cid, http, "localhost", path)), T));
             setup_ok &= ok(&w.request(RequestType::AddHttpsFrontend(Worker::http_frontend(cid, https, "localhost", path)), T));
         }
         setup_ok &= ok(&w.request(RequestType::AddTcpFrontend(Worker::tcp_frontend("t1", tcp)), T));
         setup_ok &= ok(&w.request(RequestType::AddTcpFrontend(Worker::tcp_frontend("tdead", tcp_dead)), T));
-        for (cid, bid, addr) in [("c1", "b1", b1), ("c2", "b2", b2), ("dead", "bd", bdead), ("t1", "bt", bt), ("tdead", "btd", bdead)] {
+        setup_ok &= ok(&w.request(RequestType::AddTcpFrontend(Worker::tcp_frontend("tnone", tcp_none)), T));
+        setup_ok &= ok(&w.request(RequestType::AddTcpFrontend(Worker::tcp_frontend("tgone", tcp_gone)), T));
+        for (cid, bid, addr) in [("c1", "b1", b1), ("c2", "b2", b2), ("c3", "b3", b3), ("dead", "bd", bdead), ("t1", "bt", bt), ("tdead", "btd", bdead), ("tgone", "btg", btg)] {
             setup_ok &= ok(&w.request(RequestType::AddBackend(Worker::backend(cid, bid, addr)), T));
         }
     }
@@ -1079,6 +1516,13 @@ fn main() {
         rng,
         w,
         rx,
+        brx,
+        last_hook: "",
+        epoch: 0,
+        pending_ovr: HashMap::new(),
+        tcp_none,
+        tcp_gone,
+        gone_backend: btg,
         trace: Vec::new(),
         last_idle: None,
         latest_idle: None,
@@ -1105,7 +1549,7 @@ fn main() {
     std::thread::sleep(Duration::from_millis(300));
     while d.rx.try_recv().is_ok() {}
     d.trace.push(json!({"ev": "cfg", "max": max, "evict": evict, "queue_timeout_ms": QUEUE_TIMEOUT_S * 1000,
-        "overrides": {"c2": 2}, "seed": seed,
+        "overrides": {"c2": 2, "c3": 0}, "seed": seed,
         "timeouts": {"front": FRONT_TIMEOUT, "back": BACK_TIMEOUT, "connect": CONNECT_TIMEOUT, "request": REQUEST_TIMEOUT, "zombie": zombie}}));
     // wake the loop so that a fresh loop_idle is seen, then take the baseline
     let _ = d.gauges();
@@ -1113,7 +1557,7 @@ fn main() {
 
     let kinds_arg = arg("--kinds", "");
     let forced: Vec<&str> = kinds_arg.split(',').filter(|x| !x.is_empty()).collect();
-    let kinds = ["h1", "storm", "tls", "tcp", "perip", "h1", "tls", "storm"];
+    let kinds = ["h1", "storm", "tls", "tcp", "perip", "h1", "tls", "storm", "enable", "leak"];
     for k in 0..waves {
         if d.w.is_finished() || d.failures.iter().any(|f| f["class"] == "panic") {
             break;
@@ -1134,6 +1578,8 @@ fn main() {
                 let n = d.rng.random_range(3..8);
                 d.wave_tcp(n)
             }
+            "enable" => d.wave_enable(),
+            "leak" => d.wave_leak(),
             _ => d.wave_perip(),
         }
         d.quiesce(k + 1, name);
